@@ -53,6 +53,11 @@ def gen_cases(tier, seed):
         elif r < 0.75:
             ops.append(["set_method", names[int(rng.integers(len(names)))]])
             ops.append(["integrate", None])
+        if rng.random() < 0.35:
+            # a splitting method with a non-default kick mask in force at the time of the reset
+            ops.append(["set_method", str(rng.choice(["ABAs5o6HSolver", "SymplecticEulerSolver", "BABs9o7HSolver"]))])
+            ops.append(["set_kick", [bool(x) for x in rng.permutation([True, False, True, False])]])
+            ops.append(["integrate", None])
         ops.append(["reset"])
         n_post = int(rng.integers(1, 4))
         frac = 0.0
